@@ -45,6 +45,11 @@ def rangeHeader (offset length : Nat) : String := s!"bytes={offset}-{offset + le
 /-- `FileShard.read_bytes`: `fp.seek(offset); fp.read(length)` -/
 def localRead (file : Bytes) (offset length : Nat) : Bytes := (file.drop offset).take length
 
+/-- `FileShard.read_bytes` as a whole (after the `fix:`): a short read is an I/O error -/
+def fileRead (file : Bytes) (offset length : Nat) : Except Err Bytes :=
+  if (localRead file offset length).length ≠ length then .error .ioError
+  else .ok (localRead file offset length)
+
 /-- a server that honours `Range: bytes=a-b` (RFC 7233): 416 when the first byte is past the end
     (or the range is empty/inverted: `length = 0` gives `b < a`, which servers answer with the
     whole entity; modelled as 200), else 206 with the bytes that exist -/
